@@ -1,17 +1,17 @@
 SPECIFICATION MCSpec
-CONSTANTS Classes = {1, 2, 3}
-  Codes = {0, 1, 2, 3}
+CONSTANTS Classes = {0, 1, 2}
+  Codes = {3}
   SortedHash = TRUE
-  Full = FALSE
-  InitSizes = {4}
-  Ptrs = {1}
-  Vals = {1}
-  SetVals <- NoSet
-  OutModes <- OutOnly
+  Full = TRUE
+  InitSizes = {2}
+  Ptrs = {1, 2}
+  Vals = {1, 2}
+  SetVals <- SetSome
+  OutModes <- OutBoth
   MaxSteps = 0
   GenDepth = 0
-  FlagScripts <- FSLayout
-  DestructorModes <- OnlyDestructors
+  FlagScripts <- FSSmall
+  DestructorModes <- BothModes
 VIEW RealState
 CONSTRAINT Bound
 INVARIANTS CountInv HashInv NoDupClass Reachable AbsentNotFound DispOrder SizeInv IterElemInv IterWindowInv IterNoRepeat IterComplete
